@@ -272,6 +272,16 @@ def run(M, c):
                 except Exception as e:  # noqa: BLE001
                     M.check("token", False, f"C08/token-raised-{type(e).__name__}:{tok}", "format raised", value=x.isoformat(), token=tok, locale=loc,
                             exc=repr(e)[:120])
+            # localized date formats are the recursive expansion of the locale's own format (default when it has none)
+            DEF = {"LTS": "h:mm:ss A", "LT": "h:mm A", "L": "MM/DD/YYYY", "LL": "MMMM D, YYYY", "LLL": "MMMM D, YYYY h:mm A", "LLLL": "dddd, MMMM D, YYYY h:mm A"}
+            for tok in DEF:
+                exp_fmt = dig(M.data[loc], "custom.date_formats." + tok) or DEF[tok]
+                try:
+                    got, exp = x.format(tok, locale=loc), x.format(exp_fmt, locale=loc)
+                except Exception as e:  # noqa: BLE001
+                    got, exp = f"<raised {type(e).__name__}>", None
+                M.check("token", got == exp and bool(got), f"C08/token:{tok}", "localized date format is not the expansion of the locale's format", value=x.isoformat(),
+                        locale=loc, got=got, expected=exp, expansion=exp_fmt)
             M.cls("tok", loc, kind, x.hour >= 12, x.month, x.weekday())
             if i < 2:
                 M.sample({"k": "tokens", "value": x.isoformat(), "locale": loc})
